@@ -46,8 +46,10 @@ rtg("C10", "enumerated first-command shapes and init-like intruders",
     "Correct init, parented, policy-less, foreign-id, empty and policy-rejected first commands on an empty provider; own init and foreign parentless commands inside later batches; list_graph_ids/get_storage observed.")
 rtg("C11", "all-pairs ancestry oracle (reference bitsets) over many segment layouts incl. long chains",
     "get_location / get_location_from / is_ancestor for every pair (<=300 commands) or sampled pairs on graphs with rich skip lists (counted), long segments and chains to max_cut ~3000; wrong-max_cut and unknown addresses must miss.")
-rtg("C19", "replica-pair sweep over random down-sets with the hello decision checked against committed-set inclusion",
-    "should_sync_on_hello(false) is accepted only when every non-merge command of the advertiser is committed locally (a merge is derivable from its parents and carries nothing); equal head sets give equal hello heads; a replica without the graph always syncs.")
+rtg("C19", "replica-pair sweep over random down-sets with the hello decision checked against committed-set inclusion; a second step with real VmPolicy replicas and a merge-id injectivity table",
+    "should_sync_on_hello(false) is accepted only when every non-merge command of the advertiser is committed locally (a merge is derivable from its parents and carries nothing); equal head sets give equal hello heads; a replica without the graph always syncs. "
+    "The first steps use the audit policy on generated DAGs; the vm-policy step runs 3-5 real VmPolicy devices that act and exchange random ancestor-closed subsets, checks every ordered pair the same way and requires the observed (parent pair -> merge id) relation of VmPolicy::merge to be a function and injective.",
+    extra_steps=one("native-dbg", "mon-e2e", "hello_vm", label="native-dbg-vm-policy"))
 rtg("C20", "model-based checking of PeerCache::add_command on random address streams",
     "<=10 entries, each committed locally with that max_cut, pairwise non-ancestors, and the documented update rule (evict ancestors, ignore ancestors-of-entries, uncommitted/flushed/unknown/wrong-max_cut addresses).")
 
